@@ -7,7 +7,6 @@ import (
 	"math/rand/v2"
 	"net"
 	"net/http"
-	"net/http/httptest"
 	"os"
 	"strings"
 	"sync"
@@ -115,7 +114,7 @@ func c15Request(c *Ctx) {
 			return
 		}
 		dw := &doneWrap{buf, make(chan struct{}, 4)}
-		srv := httptest.NewServer(dw)
+		srv := newTestServer(dw)
 		defer srv.Close()
 		body := detBody(int(p.size), uint64(i))
 		var rd io.Reader = bytes.NewReader(body)
@@ -294,10 +293,10 @@ func c15Response(c *Ctx) {
 			return
 		}
 		dw := &doneWrap{buf, make(chan struct{}, 4)}
-		srv := httptest.NewServer(dw)
+		srv := newTestServer(dw)
 		defer srv.Close()
 		// raw client so that hijacked / aborted exchanges can be read too
-		conn, err := net.Dial("tcp", srv.Listener.Addr().String())
+		conn, err := dialRetry("tcp", srv.Listener.Addr().String())
 		if err != nil {
 			c.Inconclusive("dial failed: " + err.Error())
 			return
